@@ -14,7 +14,7 @@
 (* TLC checks on every accepted type graph of GenGraph that Build yields a value which        *)
 (* Sem!Verdict accepts (ExProduct.cfg), and that the switch breaks this.                       *)
 EXTENDS Integers, Sequences, FiniteSets, Sem
-CONSTANTS DropRequiredAtCut, ShiftItemsAtCut
+CONSTANTS DropRequiredAtCut, ShiftItemsAtCut, KeysOptDefault
 
 NIL == [t |-> "nil"]
 NotNil(x) == x # NIL
@@ -36,7 +36,7 @@ Build(env, n, cnt, cut) ==
          IN [t |-> "arr", items |-> IF ShiftItemsAtCut THEN SelectSeq(kids, NotNil) ELSE SubSeq(kids, 1, stop - 1)]
     [] n.t = "obj" ->
          LET props == ObjProps(env, n, {})
-             Req(i) == ~Optional(props[i], FALSE)
+             Req(i) == ~Optional(props[i], KeysOptDefault)
              kids == [i \in DOMAIN props |-> Build(env, props[i].n, cnt, cut + (IF Req(i) THEN 0 ELSE 1))]
              giveUp == ~DropRequiredAtCut /\ cut > 0 /\ \E i \in DOMAIN props : kids[i] = NIL /\ Req(i)
          IN IF giveUp THEN NIL
